@@ -131,6 +131,8 @@ class SyncInterpreter(BaseInterpreter[TContext, TEvent]):
         # ⚙️ Initialize synchronous-specific attributes
         self._event_queue: Deque[Union[Event, DoneEvent, AfterEvent]] = deque()
         self._is_processing: bool = False
+        #: Length of the current self-raised event chain (see `send`).
+        self._raise_depth: int = 0
         self._after_threads: Dict[str, threading.Thread] = {}
         self._after_events: Dict[str, threading.Event] = {}
         #: Cancellation flags for pending delayed sends, released by `stop()`.
@@ -310,6 +312,12 @@ class SyncInterpreter(BaseInterpreter[TContext, TEvent]):
 
         event_obj = self._prepare_event(event_or_type, **payload)
         self._event_queue.append(event_obj)
+        # 🔁 An event sent while another one is being processed was raised by
+        #    the machine itself (an action, a done/after notification): it is
+        #    a link of a potentially self-feeding chain. Events arriving from
+        #    outside never count towards the runaway bound.
+        if self._is_processing:
+            self._raise_depth += 1
         self._process_event_queue()
 
     def send_events(
@@ -340,35 +348,42 @@ class SyncInterpreter(BaseInterpreter[TContext, TEvent]):
         self._is_processing = True
         # 🛟 Bound the macrostep. The `raise` built-in re-enters this queue, so
         #    an action that raises its own trigger event feeds itself forever.
-        #    `max_iterations` previously guarded only the eventless (`always`)
-        #    path, leaving this loop unbounded: `send()` never returned, with
-        #    no timeout and no way to interrupt it. The same ceiling now
-        #    applies to both paths.
-        processed = 0
+        #
+        # 🏛️ Architecture decision: measure the SELF-RAISED CHAIN, not the
+        #    number of events drained. Counting every drained event could not
+        #    tell a runaway `raise` from a merely large batch: a
+        #    `send_events()` burst longer than `max_iterations` had its tail
+        #    silently discarded. `_raise_depth` counts only events enqueued
+        #    *while another event was being processed* (see `send`), exactly
+        #    like the async engine, so outside traffic is never throttled.
         limit = getattr(self.machine, "max_iterations", 1000)
         try:
             while self._event_queue:
-                processed += 1
-                if processed > limit:
+                current_event = self._event_queue.popleft()
+
+                if self._raise_depth > limit:
                     logger.error(
-                        "🛑 Exceeded %d queued events in a single macrostep on "
-                        "'%s'. This usually means an action raises the event "
-                        "that triggers it. Discarding %d pending event(s).",
+                        "🛑 Exceeded %d chained self-raised events on '%s'. "
+                        "This usually means an action raises the event that "
+                        "triggers it. Breaking the chain; externally queued "
+                        "events are unaffected.",
                         limit,
                         self.id,
-                        len(self._event_queue),
                     )
-                    self._event_queue.clear()
-                    break
+                    self._raise_depth = 0
+                    continue
 
-                current_event = self._event_queue.popleft()
                 logger.info("⚙️ Processing event: '%s'", current_event.type)
 
                 for plugin in self._plugins:
                     plugin.on_event_received(self, current_event)
 
+                depth_before = self._raise_depth
                 self._process_event(current_event)
                 self._process_transient_transitions()
+                # ✅ A macrostep that raised nothing ends the chain.
+                if self._raise_depth == depth_before:
+                    self._raise_depth = 0
         finally:
             self._is_processing = False
             logger.debug("🎉 Event processing cycle completed. Queue empty.")
